@@ -518,7 +518,7 @@ def wide_library(rows=None, class_=True, defaults=False, **opts):
     return lib
 
 
-STR_ROWS = {"cstr_in", "tdstr_in", "str_cref", "str_ref_inout", "str_ref_out"}
+STR_ROWS = {"cstr_in", "tdstr_in", "str_cref", "str_v", "str_ref_inout", "str_ref_out"}
 STR_RESULTS = {"cstr", "str_cref", "char1", "char3"}
 VEC_BUF_ROWS = {"vec_in", "vec_inout", "vec_out_alloc", "vec_inout_alloc", "cstrv_in"}
 CDESC_RESULTS = {"iptr3", "iptr23"}
